@@ -350,7 +350,7 @@ let register_all register =
   register "codec" Regsuite.s_codec;
   register "router" s_router;
   register "routerconc" s_routerconc;
-  List.iter (fun n -> register ("gw" ^ n) Gwsuite.s_gw) ["C01"; "C11"; "C15"; "C16"; "C17"];
+  List.iter (fun n -> register ("gw" ^ n) Gwsuite.s_gw) ["C01"; "C02"; "C11"; "C15"; "C16"; "C17"];
   register "histC01" (s_hist Judge.judge_c01);
   register "histC03" (s_hist Judge.judge_c03);
   register "histC07" (s_hist Judge.judge_c07);
